@@ -17,7 +17,8 @@ RULE = ('case = (sequence of send-family calls with payloads, mode, transport); 
 ASSUMPTIONS = ['pty slave in raw mode (no tty processing), so the received bytes are exactly the written bytes',
                'payloads above the kernel buffer are drained by a free-running reader thread (only the total is compared)',
                'short writes are not injected: blocking pty/pipe/socket writes complete on Linux']
-REQUIRED_FLAGS = {'all_bytes': 1, 'non_ascii_text': 1, 'text_in_bytes_mode': 1, 'large': 1, 'control': 1, 'stateful_bom': 1}
+REQUIRED_FLAGS = {'all_bytes': 1, 'non_ascii_text': 1, 'text_in_bytes_mode': 1, 'large': 1, 'control': 1, 'stateful_bom': 1,
+                  'linesep_changed_between_sendlines': 1}
 
 BIG = 300000
 CONTROL = list('abcdefghijklmnopqrstuvwxyz') + list('ABZ') + ['@', '`', '[', '{', '\\', '|', ']', '}', '^', '~', '_', '?']
@@ -53,6 +54,9 @@ def tasks(tier):
         out.append(dict(kind='big', transport=tr, tier=tier))
     for tr in ('pty-select', 'pty-poll'):
         out.append(dict(kind='control', transport=tr, tier=tier))
+    # the separator in force at the time of each sendline(): `linesep` is a public, assignable attribute
+    for tr in TR.NAMES:
+        out.append(dict(kind='linesep', transport=tr, tier=tier))
     return out
 
 
@@ -113,6 +117,9 @@ def run_seq(task, seq, mode, big=False):
                 if k == 'send' and ret != len(piece):
                     viol = ('send-return', 'send(%s) returned %r but wrote %d bytes' % (op[1], ret, len(piece)))
                     break
+            elif k == 'linesep':
+                linesep = op[1]
+                sp.linesep = linesep if enc else linesep.encode('ascii')
             elif k == 'sendline0':
                 sp.sendline()
                 want += encode(linesep if enc else linesep.encode('ascii'))
@@ -131,7 +138,12 @@ def run_seq(task, seq, mode, big=False):
             elif k == 'sendintr':
                 sp.sendintr()
                 want += vintr
-        got = drain.finish() if drain else link.received()
+        if drain and viol is None:
+            got = drain.finish()
+        elif drain:
+            got = b''
+        else:
+            got = link.received()
         obs = dict(got_len=len(got), want_len=len(want))
         if big and not got:
             import sys
@@ -145,11 +157,20 @@ def run_seq(task, seq, mode, big=False):
     except Exception as e:
         viol = ('exception', 'raised %r' % (e,))
     finally:
+        if big and link is not None and 'drain' in locals() and drain is not None:
+            drain.abort()
         if link is not None:
             link.finish()
         else:
             env.finish()
     return obs, viol
+
+
+def big_verdict(viol, detail=True):
+    """How much of an oversized payload gets through before the fault shows (and whether it shows as a short
+    count, an error or missing bytes) depends on when the free-running draining peer runs; the verdict does not."""
+    return ('incomplete', 'a payload larger than the kernel buffer was not delivered completely and in order, or '
+            'send() did not report its length' + (' (one instance: %s: %s)' % (viol[0], viol[1][:160]) if detail else ''))
 
 
 def run_task(task):
@@ -181,6 +202,24 @@ def run_task(task):
                 if viol:
                     acc.violation('%s:%s:%s:%s' % (task['transport'], mode, seq[-1][0], viol[0]),
                                   'sequence %r: %s' % (seq, viol[1]), dict(task=task, seq=[list(o) for o in seq]))
+    elif task['kind'] == 'linesep':
+        menu = [('sendline', 'a'), ('sendline', 'empty'), ('send', 'a'), ('linesep', '\r\n'), ('linesep', '\r')]
+        for mode in ('bytes', 'utf-8'):
+            for n in range(2, (3 if q else 4) + 1):
+                for seq in itertools.product(menu, repeat=n):
+                    if seq[-1][0] == 'linesep' or not any(o[0] == 'linesep' for o in seq):
+                        continue
+                    obs, viol = run_seq(dict(task, mode=mode), seq, mode)
+                    acc.execs += 1
+                    acc.transitions += n
+                    acc.nontrivial += 1
+                    first = next(i for i, o in enumerate(seq) if o[0] == 'linesep')
+                    if any(o[0] == 'sendline' for o in seq[:first]) and any(o[0] == 'sendline' for o in seq[first:]):
+                        acc.flags['linesep_changed_between_sendlines'] += 1
+                    acc.outcomes['linesep:%s' % ('viol' if viol else 'ok')] += 1
+                    if viol:
+                        acc.violation('%s:%s:linesep:%s' % (task['transport'], mode, viol[0]), 'sequence %r: %s' % (seq, viol[1]),
+                                      dict(task=task, seq=[list(o) for o in seq], mode=mode))
     elif task['kind'] == 'big':
         for mode in ('bytes', 'utf-8'):
             for seq in ([('send', 'big')], [('sendline', 'big')], [('send', 'big'), ('send', 'big')]):
@@ -193,6 +232,7 @@ def run_task(task):
                 acc.flags['large'] += 1
                 acc.outcomes['big:%s' % ('viol' if viol else 'ok')] += 1
                 if viol:
+                    viol = big_verdict(viol)
                     acc.violation('%s:%s:big:%s' % (task['transport'], mode, viol[0]), 'sequence %r: %s' % (seq, viol[1]),
                                   dict(task=task, seq=[list(o) for o in seq], mode=mode, big=True))
     else:
@@ -222,9 +262,15 @@ def replay(spec):
     seq = [tuple(o) for o in spec['seq']]
     obs, viol = run_seq(dict(task, mode=mode), seq, mode, big=spec.get('big', False))
     out = {'observation': obs, 'violation': None}
+    if spec.get('big'):
+        out = {'observation': {'want_len': obs.get('want_len')}, 'violation': None, '_timing': {'observation': obs, 'detail': viol}}
+        if viol:
+            viol = big_verdict(viol, detail=False)
     if viol:
         if spec.get('big'):
             key = '%s:%s:big:%s' % (task['transport'], mode, viol[0])
+        elif task['kind'] == 'linesep':
+            key = '%s:%s:linesep:%s' % (task['transport'], mode, viol[0])
         elif task['kind'] == 'control':
             key = '%s:%s:sendcontrol(%s):%s' % (task['transport'], mode, seq[-1][1], viol[0])
         else:
